@@ -8,6 +8,7 @@ Std-collection stores, enumerations, from_quad_source: SophiaModel/Model/StoreSt
 -/
 import SophiaProofs.Lemmas.StoreBulk
 import SophiaProofs.Lemmas.StoreStd
+import SophiaModel.Gen.MatcherTable
 
 namespace SophiaProofs.C01
 open SophiaModel SophiaModel.Term SophiaModel.Store SophiaModel.StdStore SophiaProofs.StoreP SophiaProofs.StdP
@@ -239,6 +240,111 @@ example : (collect Gen.genericFastGraph.shape Gen.maxU16
     [⟨.iri ['s'], .iri ['p'], .lang ['x'] ['e', 'n'], none⟩, ⟨.iri ['s'], .iri ['p'], .lang ['x'] ['E', 'N'], none⟩]).map
       (fun s => (Store.quads s).length) = some 1 := by decide
 
+/-! ### `constant()` of the transcribed matchers is what the SOURCE says
+
+`Gen/MatcherTable.lean` is regenerated on every run from `api/src/term/matcher/*.rs`: for every
+`impl TermMatcher/GraphNameMatcher for T`, the shape in which `constant()` is written (or that it is
+not overridden, the default being `None`). The transcribed `TM.constant` / `GM.constant` are exactly
+the meaning of those shapes, and every impl of the source is transcribed; `constant_sound_tm/gm`
+then say the source's `constant()`s are sound. A new or changed `constant()` fails these obligations. -/
+
+open SophiaModel.MatcherSrc in
+theorem tm_constant_from_source (m : TM) : ∀ ty ∈ TM.implTypes m,
+    ∃ c, lookupImpl Gen.termMatcherConst ty = some c ∧ m.constant = TM.interp c m := by
+  cases m with
+  | arr ts =>
+    intro ty hty
+    simp only [TM.implTypes, List.mem_cons, List.mem_nil_iff, or_false] at hty
+    rcases hty with rfl | rfl
+    all_goals
+      refine ⟨.single, by decide, ?_⟩
+      match ts with
+      | [] => rfl
+      | [_] => rfl
+      | _ :: _ :: _ => rfl
+  | opt o =>
+    intro ty hty
+    simp only [TM.implTypes, List.mem_cons, List.mem_nil_iff, or_false] at hty
+    subst hty
+    exact ⟨.selfOpt, by decide, rfl⟩
+  | _ =>
+    intro ty hty
+    simp only [TM.implTypes, List.mem_cons, List.mem_nil_iff, or_false] at hty
+    subst hty
+    exact ⟨.never, by decide, rfl⟩
+
+open SophiaModel.MatcherSrc in
+theorem gm_constant_from_source (m : GM) : ∀ ty ∈ GM.implTypes m,
+    ∃ c, lookupImpl Gen.graphNameMatcherConst ty = some c ∧ m.constant = GM.interp c m := by
+  cases m with
+  | arr gs =>
+    intro ty hty
+    simp only [GM.implTypes, List.mem_cons, List.mem_nil_iff, or_false] at hty
+    rcases hty with rfl | rfl
+    all_goals
+      refine ⟨.single, by decide, ?_⟩
+      match gs with
+      | [] => rfl
+      | [_] => rfl
+      | _ :: _ :: _ => rfl
+  | opt o =>
+    intro ty hty
+    simp only [GM.implTypes, List.mem_cons, List.mem_nil_iff, or_false] at hty
+    subst hty
+    exact ⟨.selfOpt, by decide, rfl⟩
+  | gn tm =>
+    intro ty hty
+    simp only [GM.implTypes, List.mem_cons, List.mem_nil_iff, or_false] at hty
+    subst hty
+    exact ⟨.innerSome, by decide, rfl⟩
+  | _ =>
+    intro ty hty
+    simp only [GM.implTypes, List.mem_cons, List.mem_nil_iff, or_false] at hty
+    subst hty
+    exact ⟨.never, by decide, rfl⟩
+
+open SophiaModel.MatcherSrc in
+/-- every matcher impl of the source is transcribed (`MatcherRef` is the borrow of another matcher:
+`self.0.constant()`) -/
+theorem matcher_impls_covered :
+    (∀ e ∈ Gen.termMatcherConst, e.1 ∈ tmTypes ∨ e = ("MatcherRef<'_, T>", .inner)) ∧
+    (∀ e ∈ Gen.graphNameMatcherConst, e.1 ∈ gmTypes ∨ e = ("MatcherRef<'_, T>", .inner)) := by
+  decide
+
+
+-- non-vacuity: the table is the real one
+example : Gen.termMatcherConst.length = 11 ∧ Gen.graphNameMatcherConst.length = 10 := by decide
+
+/-! ### the pre-load of the index-full histories
+
+The driver's `fill` / `collectfill` requests put 65 000 quads into a store through
+`StdStore.bulkInsert`, whose fast path writes the resulting state down directly. It is not a separate,
+hand-built state: it IS the state `insert_all` produces, so the histories that exhaust a 16-bit term
+index are histories of `Store.insert`, covered by `run_refines_spec`. -/
+
+/-- `bulkInsert` (either path) equals `Store.insertAll` on the same quads, for every store in a good
+state, every fixed subject/predicate, every offset and length of the literal sequence -/
+theorem fill_is_insert_all {d : StoreDesc} {s : St} (hG : Good d s) (sT pT : Term) (off m : Nat) :
+    bulkInsert s sT pT (fillTerms off m) = insertAll s (objQuads sT pT (fillTerms off m)) 0 :=
+  bulkInsert_eq_insertAll hG sT pT (fillTerms_pairwise off m)
+
+/-- the fast path alone, at full generality: any never-seen pairwise different objects -/
+theorem bulk_fresh_is_insert_all {d : StoreDesc} {s : St} {sT pT : Term} {is ip : Nat} (ts : List Term) (c : Nat)
+    (hG : Good d s) (hs : getIndex s.terms sT = some is) (hp : getIndex s.terms pT = some ip)
+    (hf : FreshList s.terms ts) (hroom : s.terms.length + ts.length ≤ s.max) :
+    insertAll s (objQuads sT pT ts) c = (bulkFresh s is ip ts, some (c + ts.length)) :=
+  bulkFresh_eq_insertAll ts c hG hs hp hf hroom
+
+/-- hence the pre-loaded state satisfies the representation invariant -/
+theorem fill_state_good {d : StoreDesc} {s : St} (hG : Good d s) (sT pT : Term) (off m : Nat) :
+    Good d (bulkInsert s sT pT (fillTerms off m)).1 := by
+  rw [fill_is_insert_all hG]; exact good_insertAll _ 0 hG
+
+-- non-vacuity: fresh stores of the generated types are in a good state; the fill literals differ
+example : Good Gen.genericFastDataset (St.new Gen.genericFastDataset.shape Gen.maxU16) :=
+  good_new tables_ok.2.1 _
+example : termEq (fillTerm 7) (fillTerm 65532) = false := fillTerm_ne (by decide)
+
 /-! ### vector-backed stores behave as the corresponding list
 
 `Vec::push`, `Vec::swap_remove`, the `while i < self.len()` loop of `Vec<Spog<T>>::remove` /
@@ -282,5 +388,20 @@ theorem vec_gspo_history_is_list (n : Nat) (ops : List Op) :
 example : (vecRemoveFirst [⟨.iri ['a'], .iri ['p'], .lang ['x'] ['e', 'n'], none⟩, ⟨.iri ['b'], .iri ['p'], .iri ['a'], none⟩,
     ⟨.iri ['a'], .iri ['p'], .lang ['x'] ['E', 'N'], none⟩] ⟨.iri ['a'], .iri ['p'], .lang ['x'] ['e', 'n'], none⟩) =
     ([⟨.iri ['a'], .iri ['p'], .lang ['x'] ['E', 'N'], none⟩, ⟨.iri ['b'], .iri ['p'], .iri ['a'], none⟩], true) := by decide
+
+/-! ### the one over-demand of `descOK`, and why it is there -/
+
+/-- the lookup-order clause of `descOK` is what `run_refines_spec`'s conclusion `s.terms = σ.seen`
+needs, and nothing else fails for the reordered store: with room for 3 terms and a quad of 4 new
+terms, the reordered store leaves `g, s, p` interned where the specification `stepSF` (order
+s, p, o, g) has `s, p, o` — the quad sets agree (both empty) -/
+theorem lookup_order_needed :
+    let q : Quad := ⟨.iri ['s'], .iri ['p'], .iri ['o'], some (.iri ['g'])⟩
+    let s := [Op.ins q].foldl (stepM gFirst) (St.new gFirst.shape 3)
+    let σ := [Op.ins q].foldl (stepSF 3 4) ⟨[], []⟩
+    descOK gFirst = false ∧ descOK { gFirst with insertOrder := [1, 2, 3, 0], removeOrder := [1, 2, 3, 0] } = true ∧
+    s.terms = [.iri ['g'], .iri ['s'], .iri ['p']] ∧ σ.seen = [.iri ['s'], .iri ['p'], .iri ['o']] ∧
+    abs s = [] ∧ σ.quads = [] := by
+  decide
 
 end SophiaProofs.C01
